@@ -172,7 +172,7 @@ struct World {
 
 // points of the grid family: variant 0 base, 1 equal-but-distinct, 2.. foreign
 std::vector<Val> grid_points(const Plan &p, int variant, uint32_t j);
-constexpr int N_GRID_VARIANTS = 9;
+constexpr int N_GRID_VARIANTS = 10;  // 0 base, 1 equal distinct, 2..8 foreign, 9 equal with signed zero
 
 // A reference obtained from a public accessor of a live object. It must stay
 // valid and unchanged for as long as that object is neither assigned to,
@@ -227,6 +227,21 @@ uint64_t hash_spline(const Sp<k> &s) {
   return h;
 }
 uint64_t hash_splinev(const SpV &v);
+// window and coefficients only (C08 twin comparison: the grids of the two
+// results are logically equal by construction but may be distinct objects)
+template <size_t k>
+uint64_t hash_spline_wc(const Sp<k> &s) {
+  sim::Exempt e;
+  uint64_t h = hmix(0x77c, k);
+  h = hmix(h, s.getSupport().getStartIndex());
+  h = hmix(h, s.getSupport().getEndIndex());
+  h = hmix(h, s.getSupport().getGrid().size());
+  const auto &cs = s.getCoefficients();
+  h = hmix(h, cs.size());
+  for (const auto &c : cs)
+    for (const auto &x : c) h = hmix(h, x.bits());
+  return h;
+}
 
 bool grids_logically_equal(const Grid &a, const Grid &b);  // harness-side
 
